@@ -27,7 +27,7 @@ from ..findings import is_open
 from raysect.core.math.random import seed as rs_seed
 from raysect.core.math import triangulate2d            # used for NT labelling only, never for the oracle
 from raysect.core.math.function.float import Arg3D, Constant3D
-from raysect.core import translate
+from raysect.core import translate, Point2D
 from raysect.optical import World
 from cherab.tools.inversions import AxisymmetricVoxel, ToroidalVoxelGrid
 
@@ -87,6 +87,13 @@ TOLERANCES = {
 REQUIRED_LABELS = ["geometry:kind=tri", "geometry:kind=rect", "geometry:kind=convex", "geometry:kind=star",
                    "geometry:kind=tmpl", "geometry:prim=mesh", "geometry:prim=csg", "geometry:concave",
                    "geometry:on-axis", "sampling:nt", "sampling:kind=tmpl", "sampling:reversed", "grid:cells>=2",
+                   "geometry:kind=trap", "geometry:kind=equidiag", "geometry:kind=kite", "geometry:kind=nearrect",
+                   "sampling:kind=trap", "sampling:kind=equidiag", "sampling:kind=kite", "sampling:kind=nearrect",
+                   "sampling:all-orders", "sampling:dyadic-exact-coordinates",
+                   "geometry:input=list", "geometry:input=tuples", "geometry:input=point2d", "geometry:input=ndarray-c",
+                   "geometry:input=ndarray-view", "sampling:input=list", "sampling:input=point2d",
+                   "sampling:input=ndarray-c", "sampling:input=ndarray-view",
+                   "grid:input=list", "grid:input=point2d", "grid:input=ndarray-c", "grid:input=ndarray-3d",
                    "grid:ctor-active=all", "grid:ctor-active=int", "grid:ctor-parent=world", "grid:ctor-transform",
                    "grid:state=all-parented", "grid:state=one-parented", "grid:state=some-parented",
                    "grid:state=none-parented", "grid:state=grid-in-world", "grid:state=grid-detached",
@@ -319,6 +326,39 @@ def local_shape(draw, kinds):
         w = draw(st.floats(0.05, 1.0))
         h = draw(st.floats(0.05, 1.0))
         return {"kind": kind, "local": [[0.0, 0.0], [w, 0.0], [w, h], [0.0, h]], "kernel": [w / 2, h / 2], "tris": None}
+    if kind in LOOKALIKE:
+        # quadrilaterals that pass weak "is it an axis-aligned rectangle" tests (4 vertices / equal diagonals / an
+        # axis-parallel edge) without being rectangles; integer lattice / 64 so that with a power-of-two scale and
+        # quarter-integer offsets ("dyadic") every coordinate, edge vector and diagonal length is exact in binary
+        if kind == "trap":            # isosceles trapezoid, taper (b1 - b2)/b1 = 2e/b1 in 5..60 %
+            b1 = draw(st.integers(20, 64))
+            e = draw(st.integers(max(1, -(-b1 // 40)), (3 * b1) // 10))
+            hh = draw(st.integers(8, 64))
+            q = [(0, 0), (b1, 0), (b1 - e, hh), (e, hh)] if draw(st.booleans()) else [(e, 0), (b1 - e, 0), (b1, hh), (0, hh)]
+        elif kind == "equidiag":      # equal, perpendicular diagonals, first edge on an axis
+            pp = draw(st.integers(8, 48))
+            qq = draw(st.integers(8, 48))
+            w = draw(st.integers(4, max(4, min(64, (pp * pp + qq * qq - 1) // max(pp, qq)))))
+            q = [(0, 0), (w, 0), (pp, qq), (w - qq, pp)]
+        elif kind == "kite":          # kite with equal axis-parallel diagonals
+            d2 = draw(st.integers(8, 32))
+            u = draw(st.integers(2, 2 * d2 - 2))
+            q = [(0, -u), (d2, 0), (0, 2 * d2 - u), (-d2, 0)]
+        else:                         # "nearrect": rectangle with one vertex displaced by up to 20 %
+            w = draw(st.integers(16, 64))
+            hh = draw(st.integers(16, 64))
+            q = [[0, 0], [w, 0], [w, hh], [0, hh]]
+            j = draw(st.integers(0, 3))
+            dx = draw(st.integers(-(w // 5), w // 5))
+            dy = draw(st.integers(-(hh // 5), hh // 5))
+            if dx == 0 and dy == 0:
+                dx = w // 5
+            q[j] = [q[j][0] + dx, q[j][1] + dy]
+        if draw(st.booleans()):       # bases / first edge vertical instead of horizontal (mirror, so reverse the order)
+            q = [(y, x) for x, y in reversed(q)]
+        loc = [[x / 64.0, y / 64.0] for x, y in q]
+        return {"kind": kind, "local": loc, "kernel": [sum(p[0] for p in loc) / 4, sum(p[1] for p in loc) / 4], "tris": None,
+                "dyadic": draw(st.booleans())}
     if kind == "tmpl":
         key = draw(st.sampled_from(TEMPLATE_KEYS))
         pts, tris = TEMPLATES[key]
@@ -374,14 +414,20 @@ def mesh_segments(verts, ex):
     return TWO_PI * ex.fcx / width if width > 0 else float("inf")
 
 
-def _finish_poly(shape, s, g, h, prim):
+def _finish_poly(shape, s, g, h, prim, inp="list"):
+    if shape.get("dyadic"):          # exact binary coordinates: power-of-two scale, quarter-integer offsets
+        s = 2.0 ** round(math.log2(s))
+        g = round(g * 4.0) / 4.0
+        h = round(h * 4.0) / 4.0
     verts, kern = place(shape, s, g, h)
     ex = Exact(verts)
     if ex.degenerate:
         return None
     if prim == "mesh" and not (3.2 <= mesh_segments(verts, ex) <= 32.0):
         prim = "csg"
-    out = {"kind": shape["kind"], "verts": verts, "kernel": kern, "tris": shape["tris"], "prim": prim}
+    out = {"kind": shape["kind"], "verts": verts, "kernel": kern, "tris": shape["tris"], "prim": prim, "input": inp}
+    if shape.get("dyadic"):
+        out["dyadic"] = True
     if "tmpl" in shape:
         out["tmpl"] = shape["tmpl"]
     return out if validate(out, ex) else None
@@ -395,14 +441,16 @@ def _offsets(gmax):
     return g, h
 
 
-KINDS = ["tri", "rect", "convex", "star", "star", "tmpl"]
+LOOKALIKE = ("trap", "equidiag", "kite", "nearrect")
+KINDS = ["tri", "rect", "convex", "star", "star", "tmpl", "tmpl", "trap", "trap", "equidiag", "kite", "nearrect"]
+INPUT_KINDS = ["list", "tuples", "point2d", "ndarray-c", "ndarray-c", "ndarray-view"]
 
 
 def poly_strategy(gmax, kinds=KINDS):
     g, h = _offsets(gmax)
     s = st.floats(-3.0, 2.0).map(lambda e: 10.0 ** e)
     prim = st.sampled_from(["csg", "csg", "mesh"])
-    return st.builds(_finish_poly, local_shape(kinds), s, g, h, prim).filter(lambda p: p is not None)
+    return st.builds(_finish_poly, local_shape(kinds), s, g, h, prim, st.sampled_from(INPUT_KINDS)).filter(lambda p: p is not None)
 
 
 def geometry_strategy():
@@ -493,6 +541,7 @@ def grid_strategy(draw):
     )
     ops = draw(st.lists(op, min_size=0, max_size=6))
     return {"cells": cells, "prim": prim, "ctor": ctor, "ops": ops, "const": draw(_const),
+            "input": draw(st.sampled_from(["list", "point2d", "ndarray-c", "ndarray-c", "ndarray-3d"])),
             "lin": [draw(st.floats(-100.0, 100.0)), draw(_coef), draw(_coef)],
             "seed": draw(st.integers(1, 2 ** 31 - 1)), "n": draw(st.sampled_from([10, 1000, 4000]))}
 
@@ -564,6 +613,8 @@ def _labels(ctx, poly, ex):
             ctx.label("excluded_known:collinear-templates")
     if min(p[0] for p in poly["verts"]) == 0.0:
         ctx.label("on-axis")
+    if poly.get("dyadic"):
+        ctx.label("dyadic-exact-coordinates")
     return conc
 
 
@@ -589,6 +640,84 @@ def _check_voxel_numbers(ctx, vox, ex, bd, tag):
     return a, cx, cy, vol
 
 
+# ------------------------------------------------------------------------------------------------ caller-side inputs
+def make_input(verts, kind):
+    """the vertex container handed to the constructor; returns (object, mutable ndarray or list to watch / modify)."""
+    if kind == "tuples":
+        return [tuple(p) for p in verts], None
+    if kind == "point2d":
+        return [Point2D(p[0], p[1]) for p in verts], None
+    if kind == "ndarray-c":
+        a = np.array(verts, dtype=np.float64)          # C-contiguous float64 (N, 2): can be adopted without a copy
+        return a, a
+    if kind == "ndarray-view":
+        big = np.full((len(verts), 5), 7.25)
+        big[:, 1::2] = np.array(verts, dtype=np.float64)
+        v = big[:, 1::2]                               # strided, non-contiguous view
+        return v, v
+    lst = [list(p) for p in verts]
+    return lst, lst
+
+
+def _snapshot(obj):
+    return obj.copy().tobytes() if isinstance(obj, np.ndarray) else repr(obj)
+
+
+def check_caller_memory(ctx, watched, snap, tag):
+    """(a) constructing a voxel must not modify the caller's container (e.g. reverse a counter-clockwise array in place)."""
+    if watched is None:
+        return
+    now = _snapshot(watched)
+    ctx.check(now == snap, "caller-array-modified",
+              lambda: "the caller's vertex container was changed by the constructor: now %r %s"
+                      % (watched.tolist() if isinstance(watched, np.ndarray) else watched, tag))
+
+
+def disturb_caller_memory(watched, verts):
+    """(b) the caller re-uses its container for the next cell: shift it in place (and reverse it)."""
+    if watched is None:
+        return
+    w = max(p[0] for p in verts) - min(p[0] for p in verts)
+    h = max(p[1] for p in verts) - min(p[1] for p in verts)
+    if isinstance(watched, np.ndarray):
+        watched[..., 0] += 1.5 * w + 0.25
+        watched[..., 1] -= 0.75 * h + 0.125
+        watched[...] = watched[..., ::-1, :].copy()
+    else:
+        for q in watched:
+            q[0] += 1.5 * w + 0.25
+            q[1] -= 0.75 * h + 0.125
+        watched.reverse()
+
+
+def _check_vertices(ctx, vox, verts, tag):
+    """voxel.vertices is the polygon the voxel was built from: same cyclic sequence, either orientation, bit for bit."""
+    with ctx.cut("vertices"):
+        got = [(p.x, p.y) for p in vox.vertices]
+    want = [(p[0], p[1]) for p in verts]
+    n = len(want)
+    rev = want[::-1]
+    ok = len(got) == n and any(got == want[k:] + want[:k] or got == rev[k:] + rev[:k] for k in range(n))
+    ctx.check(ok, "vertices", lambda: "voxel.vertices %r is not the polygon it was built from %r %s" % (got, want, tag))
+
+
+def build_voxel(ctx, verts, prim, kind, ex, bd, tag):
+    """construct from the given container kind, check the caller's memory, disturb it, return the voxel."""
+    inp, watched = make_input(verts, kind)
+    snap = _snapshot(watched) if watched is not None else None
+    with ctx.cut("construct"):
+        vox = AxisymmetricVoxel(inp, primitive_type=prim)
+    check_caller_memory(ctx, watched, snap, tag)
+    if watched is not None:
+        first = _check_voxel_numbers(ctx, vox, ex, bd, tag)
+        disturb_caller_memory(watched, verts)
+        again = _check_voxel_numbers(ctx, vox, ex, bd, tag + " [after the caller shifted its vertex container in place]")
+        ctx.check(first == again, "aliasing", lambda: "area/centroid/volume changed from %r to %r when the caller modified "
+                                                      "its own vertex container %s" % (first, again, tag))
+    _check_vertices(ctx, vox, verts, tag)
+    return vox
+
+
 # ------------------------------------------------------------------------------------------------ geometry
 def run_geometry(case, ctx):
     verts = [[float(p[0]), float(p[1])] for p in case["verts"]]
@@ -602,6 +731,8 @@ def run_geometry(case, ctx):
     ctx.label("kappa<1e3" if bd["kappa"] < 1e3 else "kappa<1e6" if bd["kappa"] < 1e6 else "kappa>=1e6")
     n = ex.n
     got = []
+    kind_in = case.get("input", "list")
+    ctx.label("input=" + kind_in)
     for rev in (False, True):
         for k in range(n):
             v = variant(verts, k, rev)
@@ -609,8 +740,7 @@ def run_geometry(case, ctx):
             # the numbers do not depend on the primitive type: a mesh case builds two orders as mesh (one per
             # orientation), the remaining ones as csg (a mesh costs 1-5 ms, a csg voxel 0.1-0.6 ms)
             prim = case["prim"] if k == (n // 2 if rev else 0) else "csg"
-            with ctx.cut("construct"):
-                vox = AxisymmetricVoxel(v, primitive_type=prim)
+            vox = build_voxel(ctx, v, prim, kind_in, ex, bd, tag)
             got.append(_check_voxel_numbers(ctx, vox, ex, bd, tag))
     g = np.array(got)
     for col, name, key, ref in ((0, "area", "A", ex.fA), (1, "centroid-r", "cx", ex.fcx), (2, "centroid-z", "cy", ex.fcy),
@@ -785,6 +915,8 @@ def run_sampling(case, ctx):
         return
     _labels(ctx, poly, ex)
     n, N = ex.n, int(case["n"])
+    if poly["kind"] in LOOKALIKE:
+        N = max(N, 20000)             # 2.5 % of the bounding box outside the polygon -> >= 500 stray points expected
     rot, rev = int(case["rot"]) % n, bool(case["rev"])
     verts = variant(base, rot, rev)
     if rev:
@@ -794,9 +926,11 @@ def run_sampling(case, ctx):
     if OOB_OPEN:
         ctx.label("excluded_known:offset>1e2-sizes")
     ctx.label("N=%d" % N)
+    kind_in = poly.get("input", "list")
+    ctx.label("input=" + kind_in)
+    bd = rounding_bounds(base, ex)
     _stage(ctx, "construct")
-    with ctx.cut("construct"):
-        vox = AxisymmetricVoxel(verts, primitive_type=poly["prim"])
+    vox = build_voxel(ctx, verts, poly["prim"], kind_in, ex, bd, "[order: rot=%d rev=%s]" % (rot, rev))
     rs_seed(int(case["seed"]))
     _stage(ctx, "emissivity_from_function(constant, %d)" % N)
 
@@ -813,64 +947,84 @@ def run_sampling(case, ctx):
         else:
             ctx.close(e, c, "constant", rtol=SAFETY * N * U, info="(%s, N=%d)" % (how, N))
 
-    # ---- recorded call with a linear field
     c0, a, b = [float(t) for t in case["lin"]]
-    rec_r, rec_z, rec_v = [], [], []
-
-    def f_rec(r, phi, z):
-        val = c0 + a * r + b * z
-        rec_r.append(r)
-        rec_z.append(z)
-        rec_v.append(val)
-        return val
-    _stage(ctx, "emissivity_from_function(linear callable, %d)" % N)
-    with ctx.cut("emissivity(linear callable)"):
-        e_lin = vox.emissivity_from_function(f_rec, N)
-    ctx.check(len(rec_v) == N, "sample-count", lambda: "grid_samples=%d but the function was evaluated %d times" % (N, len(rec_v)))
-    acc = 0.0
-    for val in rec_v:
-        acc += val
-    vmax = max(abs(t) for t in rec_v)
-    ctx.close(e_lin, acc / N, "return-vs-samples", rtol=1e-12, scale=max(vmax, 1e-300))
-
-    pts = np.column_stack([np.array(rec_r), np.array(rec_z)])
     r1, r2 = min(p[0] for p in base), max(p[0] for p in base)
     z1, z2 = min(p[1] for p in base), max(p[1] for p in base)
     diam = math.hypot(r2 - r1, z2 - z1)
     maxabs = max(abs(r1), abs(r2), abs(z1), abs(z2))
     dtol = 1e-12 * (maxabs + diam)
-
-    # inside the polygon, and multinomial counts over the independent triangulation
     tris = own_triangles(poly)
-    idx = _classify(pts, tris, dtol)
-    n_out = int(np.sum(idx < 0))
-    if n_out:
-        k = int(np.argmax(idx < 0))
-        ctx.fail("inside", "%d of %d sample points lie outside the cross-section, e.g. sample %d at (r=%r, z=%r); polygon %r"
-                 % (n_out, N, k, rec_r[k], rec_z[k], verts))
-    counts = np.bincount(idx, minlength=len(tris))
-    for j, t in enumerate(tris):
-        p, sgn = ex.tri_fraction(*t)
-        p = float(p)
-        tol = bernstein(N, math.sqrt(p * (1.0 - p)), 1.0) * (1 + 1e-9) + 1e-9
-        frac = counts[j] / N
-        ctx.check(abs(frac - p) <= tol, "area-weighting",
-                  lambda: "own triangle %d %r holds %.6f of the area but received %d/%d = %.6f of the samples (tol %.6f); "
-                          "order rot=%d rev=%s" % (j, t, p, counts[j], N, frac, tol, rot, rev))
 
-    # first moments: mean r, mean z -> centroid (every linear field follows)
-    for name, col, mu, var, R in (("r", 0, ex.fcx, ex.var_x, r2 - r1), ("z", 1, ex.fcy, ex.var_y, z2 - z1)):
-        m = float(pts[:, col].mean())
-        tol = bernstein(N, math.sqrt(var), R) * (1 + 1e-9) + 1e-12 * (abs(mu) + R)
-        ctx.check(abs(m - mu) <= tol, "mean-" + name,
-                  lambda: "mean %s of %d samples = %r, centroid %r, |diff| %.4g > %.4g (sigma %.4g)"
-                          % (name, N, m, mu, abs(m - mu), tol, math.sqrt(var)))
-    R_lin = abs(a) * (r2 - r1) + abs(b) * (z2 - z1)
-    mu_lin = c0 + a * ex.fcx + b * ex.fcy
-    scale_lin = abs(c0) + abs(a) * maxabs + abs(b) * maxabs
-    tol_lin = bernstein(N, lin_sd(a, b, ex), R_lin) * (1 + 1e-9) + 2 * (N + 8) * U * scale_lin
-    ctx.check(abs(e_lin - mu_lin) <= tol_lin, "linear",
-              lambda: "linear field %r: sampled mean %r, f(centroid) %r, |diff| %.4g > %.4g" % (case["lin"], e_lin, mu_lin, abs(e_lin - mu_lin), tol_lin))
+    def recorded(vox, verts, rot, rev, N):
+        """one recorded emissivity call on this voxel: return value, inside-ness, area weighting, first moments."""
+        # ---- recorded call with a linear field
+        rec_r, rec_z, rec_v = [], [], []
+
+        def f_rec(r, phi, z):
+            val = c0 + a * r + b * z
+            rec_r.append(r)
+            rec_z.append(z)
+            rec_v.append(val)
+            return val
+        _stage(ctx, "emissivity_from_function(linear callable, %d)" % N)
+        with ctx.cut("emissivity(linear callable)"):
+            e_lin = vox.emissivity_from_function(f_rec, N)
+        ctx.check(len(rec_v) == N, "sample-count", lambda: "grid_samples=%d but the function was evaluated %d times" % (N, len(rec_v)))
+        acc = 0.0
+        for val in rec_v:
+            acc += val
+        vmax = max(abs(t) for t in rec_v)
+        ctx.close(e_lin, acc / N, "return-vs-samples", rtol=1e-12, scale=max(vmax, 1e-300))
+
+        pts = np.column_stack([np.array(rec_r), np.array(rec_z)])
+
+        # inside the polygon, and multinomial counts over the independent triangulation
+        idx = _classify(pts, tris, dtol)
+        n_out = int(np.sum(idx < 0))
+        if n_out:
+            k = int(np.argmax(idx < 0))
+            ctx.fail("inside", "%d of %d sample points lie outside the cross-section, e.g. sample %d at (r=%r, z=%r); polygon %r"
+                     % (n_out, N, k, rec_r[k], rec_z[k], verts))
+        counts = np.bincount(idx, minlength=len(tris))
+        for j, t in enumerate(tris):
+            p, sgn = ex.tri_fraction(*t)
+            p = float(p)
+            tol = bernstein(N, math.sqrt(p * (1.0 - p)), 1.0) * (1 + 1e-9) + 1e-9
+            frac = counts[j] / N
+            ctx.check(abs(frac - p) <= tol, "area-weighting",
+                      lambda: "own triangle %d %r holds %.6f of the area but received %d/%d = %.6f of the samples (tol %.6f); "
+                              "order rot=%d rev=%s" % (j, t, p, counts[j], N, frac, tol, rot, rev))
+
+        # first moments: mean r, mean z -> centroid (every linear field follows)
+        for name, col, mu, var, R in (("r", 0, ex.fcx, ex.var_x, r2 - r1), ("z", 1, ex.fcy, ex.var_y, z2 - z1)):
+            m = float(pts[:, col].mean())
+            tol = bernstein(N, math.sqrt(var), R) * (1 + 1e-9) + 1e-12 * (abs(mu) + R)
+            ctx.check(abs(m - mu) <= tol, "mean-" + name,
+                      lambda: "mean %s of %d samples = %r, centroid %r, |diff| %.4g > %.4g (sigma %.4g)"
+                              % (name, N, m, mu, abs(m - mu), tol, math.sqrt(var)))
+        R_lin = abs(a) * (r2 - r1) + abs(b) * (z2 - z1)
+        mu_lin = c0 + a * ex.fcx + b * ex.fcy
+        scale_lin = abs(c0) + abs(a) * maxabs + abs(b) * maxabs
+        tol_lin = bernstein(N, lin_sd(a, b, ex), R_lin) * (1 + 1e-9) + 2 * (N + 8) * U * scale_lin
+        ctx.check(abs(e_lin - mu_lin) <= tol_lin, "linear",
+                  lambda: "linear field %r: sampled mean %r, f(centroid) %r, |diff| %.4g > %.4g" % (case["lin"], e_lin, mu_lin, abs(e_lin - mu_lin), tol_lin))
+
+        return mu_lin, tol_lin
+
+    mu_lin, tol_lin = recorded(vox, verts, rot, rev, N)
+    if poly["kind"] in LOOKALIKE:
+        # a shortcut keyed on the *stored* first edge / diagonals only shows for some starting vertices: sample every
+        # one of the 2n vertex orders of these look-alike quadrilaterals
+        ctx.label("all-orders")
+        for rev2 in (False, True):
+            for k2 in range(n):
+                if (k2, rev2) == (rot, rev):
+                    continue
+                v2 = variant(base, k2, rev2)
+                tag2 = "[order: rot=%d rev=%s]" % (k2, rev2)
+                _stage(ctx, "construct + emissivity_from_function " + tag2)
+                vox2 = build_voxel(ctx, v2, "csg", kind_in, ex, bd, tag2)
+                recorded(vox2, v2, k2, rev2, 6000)   # >= 150 stray points expected at 5 % taper
 
     # ---- Function3D objects (no Python callback): linear and quadratic
     X, Z = Arg3D("x"), Arg3D("z")
@@ -928,9 +1082,32 @@ def run_grid(case, ctx):
     if ctor.get("transform"):
         kw["transform"] = translate(0.25, 0.0, 1.5)
         ctx.label("ctor-transform")
+    # the container the caller hands over: lists, Point2D lists, one C-contiguous float64 array per cell, or a single
+    # (m, n, 2) array whose rows are handed to the voxels as C-contiguous (n, 2) views (cells with equal vertex counts)
+    kind_in = case.get("input", "list")
+    if kind_in == "ndarray-3d" and len(set(len(c) for c in cells)) != 1:
+        kind_in = "ndarray-c"
+    ctx.label("input=" + kind_in)
+    if kind_in == "ndarray-3d":
+        coords = np.array(cells, dtype=np.float64)
+        watched = [coords]
+    elif kind_in == "ndarray-c":
+        coords = [np.array(c, dtype=np.float64) for c in cells]
+        watched = coords
+    elif kind_in == "point2d":
+        coords = [[Point2D(p[0], p[1]) for p in c] for c in cells]
+        watched = []
+    else:
+        coords = [[list(p) for p in c] for c in cells]
+        watched = coords
+    snaps = [_snapshot(w) for w in watched]
     _stage(ctx, "construct grid")
     with ctx.cut("construct"):
-        grid = ToroidalVoxelGrid(cells, primitive_type=case["prim"], active=active, **kw)
+        grid = ToroidalVoxelGrid(coords, primitive_type=case["prim"], active=active, **kw)
+    for wi, (w, sn) in enumerate(zip(watched, snaps)):
+        check_caller_memory(ctx, w, sn, "[vertex container %d handed to ToroidalVoxelGrid]" % wi)
+    for w in watched:                 # the caller re-uses / shifts its arrays; every later state check re-reads the voxels
+        disturb_caller_memory(w, [p for c in cells for p in c])
     with ctx.cut("getitem"):
         voxels = [grid[i] for i in range(m)]
     worlds = []                       # keep foreign parents alive
@@ -947,6 +1124,8 @@ def run_grid(case, ctx):
         ctx.check(len(it) == m and all(x is y for x, y in zip(it, voxels)) and all(x is y for x, y in zip(gi, voxels)),
                   "voxel-list", lambda: "iteration / indexing no longer yield the %d voxels in construction order %s" % (m, tag))
         vols = [_check_voxel_numbers(ctx, voxels[i], exs[i], bds[i], "[voxel %d of %d] %s" % (i, m, tag))[3] for i in range(m)]
+        for i in range(m):
+            _check_vertices(ctx, voxels[i], cells[i], "[voxel %d of %d] %s" % (i, m, tag))
         with ctx.cut("total_volume"):
             tv = grid.total_volume
         acc = 0
